@@ -195,7 +195,8 @@ def run(ctx):
     # ------------------------------------------------------------------- R4
     ctx.rule("C02.R4", "is_running(): early False once gone/recycled; a recycled "
              "verdict is published to _pids_reused; compares against a freshly "
-             "built Process(self.pid)", floor=2)
+             "built Process(self.pid); the recycled verdict comes only from that "
+             "comparison; the probe is never cached", floor=5)
     ir = repo.func("psutil", "Process.is_running")
     cfg = A.cfg(ir)
     adds = [c for c in calls_in(ir.node) if isinstance(c.func, ast.Attribute)
@@ -222,6 +223,33 @@ def run(ctx):
     else:
         ctx.fail("C02.R4", "sticky-false", ir.file, ir.node.lineno, ir.qual,
                  "is_running() can answer True again after it answered False")
+    # the "recycled" verdict is sticky too and concerns THIS object's process, not
+    # the PID number: it may only come from comparing identities
+    from .c01 import _is_identity_compare, uncached_probes
+    nst = 0
+    for fi in repo.all_funcs("psutil"):
+        if fi.qual == "Process._init":
+            continue
+        for st in ast.walk(fi.node):
+            if isinstance(st, ast.Assign) and any(
+                    isinstance(t, ast.Attribute) and t.attr == "_pid_reused" for t in st.targets):
+                nst += 1
+                key = f"reused-on-evidence:{fi.qual}:{norm_stmt(st)}"
+                if _is_identity_compare(st.value):
+                    ctx.ok("C02.R4", key, sample=norm_stmt(st))
+                else:
+                    ctx.fail("C02.R4", key, fi.file, st.lineno, fi.qual,
+                             f"`{norm_stmt(st)}` declares the object's PID recycled without "
+                             f"comparing identities (self != Process(self.pid)): a fresh "
+                             f"object of the PID's current owner would be reported as not "
+                             f"running for ever")
+    ctx.require(nst >= 1, "no store to _pid_reused found outside _init")
+    for q, why in uncached_probes(repo):
+        if why:
+            f_ = repo.func("psutil", q)
+            ctx.fail("C02.R4", f"uncached:{q}", f_.file, f_.node.lineno, f_.qual, why)
+        else:
+            ctx.ok("C02.R4", f"uncached:{q}", nontrivial=False)
     # the "gone" verdict is sticky (is_running() answers False for ever), so it may
     # only be pronounced on evidence: in a handler of NoSuchProcess /
     # ProcessLookupError raised by a query on that very object
